@@ -34,6 +34,14 @@ CLAIMED = {
                 text='Inv(o): every derived view equals that of a fresh object built from o\'s definition. {Inv} m {Inv} is checked for every public mutator from both cache states '
                      '(empty / every view read), readers preserve Inv, deep copies are disjoint and independent: unbounded in the history by induction, bounded in the shape (8 classes + 3 containers).',
                 note=_B_NOTE),
+    'C10': dict(category='other', technique='contracts on operations.translate/rotate/scale; per-shape exhaustive symbolic execution (symx) with cos/sin as algebraic atoms',
+                text='T(obj).evaluate_single(u) == tau(obj.evaluate_single(u)) for symbolic parameters, control points, weights, vector, factor and angle (c*c+s*s==1), for curves, surfaces, '
+                     'volumes and containers of 1-3 members; weights unchanged; inplace=False leaves the input field-wise unchanged and returns new objects, inplace=True updates the same objects.',
+                note=_B_NOTE + ' A4: math.cos/sin by contract.'),
+    'C13': dict(category='other', technique='contracts on the layout-dependent functions; per-shape exhaustive symbolic execution (symx) with one distinct symbol per control point',
+                text='2-D grid view, control point managers, flips, transpose, flip, extract/construct round trips and sweeps all address the same point for the same (u,v,w) on nets '
+                     'with pairwise different sizes; round trips return the original shape and evaluate identically.',
+                note=_B_NOTE),
 }
 
 _TODO = 'check not built yet in this revision (work in progress; see DESIGN.md section 7 for the planned contract)'
